@@ -393,9 +393,18 @@ impl<K: El, V: El> Mon<K, V> {
                 if p.contains("harness/src") || p.starts_with("HARNESS") {
                     viol!(HARNESS, "harness panic in {}: {p}", op.encode());
                 }
-                viol_op!(op.code, "undocumented panic in {}: {p}", op.encode());
+                let mut v = Viol { extra: Vec::new(), prop: class_prop(op.code), more: contents_more(op.code), msg: format!("undocumented panic in {}: {p}", op.encode()) };
+                if capacity_call_while_split(op.code, &st0) {
+                    v.extra.push("C04");
+                }
+                return Err(v);
             }
-            Ok(Err(v)) => return Err(v),
+            Ok(Err(mut v)) => {
+                if capacity_call_while_split(op.code, &st0) && v.prop != HARNESS {
+                    v.extra.push("C04");
+                }
+                return Err(v);
+            }
             Ok(Ok(o)) => o,
         };
         self.nops += 1;
@@ -422,6 +431,11 @@ impl<K: El, V: El> Mon<K, V> {
             return Err(v);
         }
         if let Err(mut v) = self.post(op, &st0, loc0, &out) {
+            // a reserve / shrink issued mid-resize that panics or loses elements has interrupted
+            // the resize in progress: that is C04's subject as well
+            if capacity_call_while_split(op.code, &st0) && v.prop != HARNESS && v.prop != "C04" && matches!(v.prop, "C10" | "C01") {
+                v.extra.push("C04");
+            }
             // a hard violation ends the history before the ledger rule is evaluated: evaluate it
             // now, so that premature / missing drops are still attributed to C06
             if self.conserve && v.prop != "C06" && v.prop != HARNESS && ledger_live() != self.live_base + 2 * self.model.len() {
@@ -909,6 +923,10 @@ fn first_diff(got: &[(u64, u64, u64, u64)], want: &[(u64, u64, u64, u64)]) -> St
         return format!("map lacks key {}", want[j].0);
     }
     "no difference".into()
+}
+
+pub fn capacity_call_while_split(c: Code, st0: &State) -> bool {
+    matches!(c, Code::Reserve | Code::TryReserve | Code::ShrinkTo | Code::ShrinkToFit) && st0.old.as_ref().map_or(false, |o| o.table.len > 0)
 }
 
 pub fn op_has_key(c: Code) -> bool {
